@@ -29,7 +29,10 @@ MENU = [
     ("gopher", b"/d", None), ("http", b"/d", None), ("gopherp_dir", b"/d", None), ("gopher", b"/d/big_a.txt", None), ("http", b"/d/big_b.txt", None),
     ("gopher", b"/m.mbox", None), ("gopher", b"/z.zip/sub", None), ("http", b"/d/big_a.txt", b"Accept: text/html\r\nX-Probe: 1\r\n\r\n"),
     ("gemini", b"/d", None), ("gopherp", b"/d/small.txt", None),
+    # two different PYG modules (each is loaded into the process per request); paired with each other and with the first item only
+    ("gopher", b"/one.pyg", None), ("gopher", b"/two.pyg", None),
 ]
+NCORE = 10
 
 
 def _spec():
@@ -39,6 +42,7 @@ def _spec():
         "d": {"big_a.txt": big_a, "big_b.txt": big_b, "small.txt": b"small\n", "sub": {"x.txt": b"x\n"}, "h.html": worlds.HTML, "pic.gif": b"GIF89a", "data.bin": b"\0\1\2", "small.txt.abstract": b"about small\n",
               ".names": b"Path=./small.txt\nName=Small One\nNumb=1\n"},
         "m.mbox": worlds.MBOX,
+        "one.pyg": ("exec", worlds.PYG.replace(b"PYG:%r", b"PYG-ONE:%r")), "two.pyg": ("exec", worlds.PYG.replace(b"PYG:%r", b"PYG-TWO:%r")),
         "z.zip": worlds.make_zip([("f.txt", b"zf\n"), ("sub/g.txt", b"zg\n")]),
     }
 
@@ -60,6 +64,7 @@ def _traced():
     import pygopherd.handlers.base as B
     import pygopherd.handlers.dir as D
     import pygopherd.handlers.HandlerMultiplexer as H
+    import pygopherd.handlers.pyg as PY
     import pygopherd.handlers.UMN as U
     import pygopherd.protocols.http as HT
 
@@ -76,6 +81,9 @@ def _traced():
         # the cache writer line by line: whatever it does between starting and finishing the file
         # (temporary names, renames) happens in the directory other clients are enumerating
         D.DirHandler.savecache.__code__: (None, None),
+        # loading a PYG module: whatever it registers process-wide while doing so
+        # (only where a .pyg file really is being loaded, i.e. past the tests on the selector)
+        PY.PYGHandler.canhandlerequest.__code__: (None, lambda frame: frame.f_lineno - frame.f_code.co_firstlineno >= 13 and str(getattr(frame.f_locals.get("self"), "selector", "")).endswith(".pyg")),
         B.VFS_Real.copyto.__code__: (None, None),
         HT.HTTPProtocol.headerslurp.__code__: (5, None),  # the per-connection cache test and the first header read
     }
@@ -383,20 +391,28 @@ def _tls_burst(kind):
     return bad
 
 
-def _stalled(kind, nstalled=40):
+def _stalled(kind, nstalled=40, tls=False):
     """A real server with many connected clients that send nothing: every further client is still
-    answered promptly (nobody's silence is anybody else's problem)."""
+    answered promptly (nobody's silence is anybody else's problem).  With `tls`: the server has a TLS
+    context and `timeout = 1`; clients that say nothing, half a line, or headers without end are dropped
+    after the configured time whatever stage of the connection they are stuck in."""
+    import ssl
     import threading
 
     import pygopherd.server as S
 
     root = rig.fresh_dir("c14s")
     rig.build_tree(root, _spec())
-    config = rig.make_config(root, handlers="default", cachetime=0)
+    config = rig.make_config(root, handlers="default", cachetime=0, **({"pygopherd__timeout": "1"} if tls else {}))
     rig.init_mime(config)
     rig.reset_lazies()
     cls = S.ForkingTCPServer if kind == "fork" else S.ThreadingTCPServer
-    server = cls(config, ("127.0.0.1", 0), S.GopherRequestHandler)
+    ctx = None
+    if tls:
+        ctx = ssl.create_default_context(ssl.Purpose.CLIENT_AUTH)
+        ctx.load_cert_chain(os.path.join(rig.REPO, "testdata", "demo.crt"), os.path.join(rig.REPO, "testdata", "demo.key"))
+    server = cls(config, ("127.0.0.1", 0), S.GopherRequestHandler, context=ctx)
+    server.handle_error = lambda *a: None  # (socketserver prints a traceback per dropped client)
     if kind == "thread":
         server.daemon_threads = True
     else:
@@ -407,9 +423,31 @@ def _stalled(kind, nstalled=40):
     t.start()
     silent = []
     try:
+        openers = [b"", b"/d/small", b"GET /d/small.txt HTTP/1.0\r\nAccept: x\r\n"]
         for i in range(nstalled):
-            silent.append(socket.create_connection(server.server_address, timeout=10))
+            s0 = socket.create_connection(server.server_address, timeout=10)
+            if tls and openers[i % 3]:
+                s0.sendall(openers[i % 3])
+            silent.append(s0)
         time.sleep(0.3)
+        if tls:
+            # every stuck client is dropped after the configured second
+            deadline = time.time() + 6
+            still = list(silent)
+            while still and time.time() < deadline:
+                nxt = []
+                for s0 in still:
+                    s0.settimeout(0.05)
+                    try:
+                        if s0.recv(4096) != b"":
+                            nxt.append(s0)  # an error reply is fine too; wait for the close
+                    except socket.timeout:
+                        nxt.append(s0)
+                    except OSError:
+                        pass
+                still = nxt
+            if still:
+                bad.append(("never-dropped", "timeout = 1: %d of %d stuck clients (silent / half a line / unfinished headers) are still connected after 6 s" % (len(still), nstalled)))
         for label, data, want in (("gopher", b"/d/small.txt\r\n", b"small\n"), ("http", b"GET /d/small.txt HTTP/1.0\r\n\r\n", b"small\n"), ("spartan", b"gopher.test /d/small.txt 0\r\n", b"small\n")):
             s = socket.create_connection(server.server_address, timeout=5)
             s.settimeout(5)
@@ -453,14 +491,14 @@ def _stalled(kind, nstalled=40):
 def _shard_fork(shard, seed, tier):
     part = core.Partial()
     for kind, order, actions in shard:
-        if order == "stalled":
-            bad = _stalled(kind)
+        if order in ("stalled", "stalled-tls"):
+            bad = _stalled(kind, tls=(order == "stalled-tls"))
             part.evaluations += 1
             part.transitions += 43
             part.state("stalled", kind)
             part.outcome("stalled", kind, tuple(b[0] for b in bad))
             for cls, det in bad:
-                part.violation("server|%s|stalled|%s" % (kind, cls), det, {"kind": "server", "skind": kind, "order": "stalled", "actions": []})
+                part.violation("server|%s|%s|%s" % (kind, order, cls), det, {"kind": "server", "skind": kind, "order": order, "actions": []})
             continue
         if order == "tls":
             bad = _tls_burst(kind)
@@ -484,8 +522,8 @@ def _shard_fork(shard, seed, tier):
 
 def replay(case):
     part = core.Partial()
-    if case["kind"] == "server" and case["order"] == "stalled":
-        bad = _stalled(case["skind"])
+    if case["kind"] == "server" and case["order"] in ("stalled", "stalled-tls"):
+        bad = _stalled(case["skind"], tls=(case["order"] == "stalled-tls"))
         return bad[0] if bad else None
     if case["kind"] == "server" and case["order"] == "tls":
         bad = _tls_burst(case["skind"])
@@ -516,13 +554,18 @@ def replay(case):
 
 def run(ck):
     n = len(MENU)
+
+    def wanted(c):
+        extra = [i for i in c if i >= NCORE]
+        return not extra or all(i >= NCORE or i == 0 for i in c)
+
     if ck.tier == "quick":
-        pairs = list(itertools.combinations_with_replacement(range(n), 2))
+        pairs = [c for c in itertools.combinations_with_replacement(range(n), 2) if wanted(c)]
         bound = 2
         combos = pairs
     else:
         bound = 3
-        combos = list(itertools.combinations_with_replacement(range(n), 2))
+        combos = [c for c in itertools.combinations_with_replacement(range(n), 2) if wanted(c)]
     shards = []
     for cold in (True, False):
         cc = combos
@@ -549,7 +592,7 @@ def run(ck):
                         continue
                     fitems.append((kind, order, actions))
     fitems += [("fork", "tls", ()), ("thread", "tls", ())]
-    fitems += [("fork", "stalled", ()), ("thread", "stalled", ())]
+    fitems += [("fork", "stalled", ()), ("thread", "stalled", ()), ("fork", "stalled-tls", ()), ("thread", "stalled-tls", ())]
     ck.pmap(_shard_fork, core.chunks(fitems, core.NPROC))
     ck.notes.append("schedules explored: %d" % p.extra.get("schedules", 0))
     ck.rule = ("all unordered pairs (thorough: also triples over the first 6) of a %d-request menu x {cold start with lazies reset, warm}, every interleaving with <= %d preemptions; scheduling points at cache-file operations, directory enumeration and every traced line "
